@@ -7,6 +7,21 @@ echo "== repo commits on ag-$WS:"; git -C /repo log --oneline main..ag-$WS
 for c in $(git -C /repo rev-list --reverse main..ag-$WS); do
   git -C /repo cherry-pick -x $c >/dev/null 2>&1 || { echo "CHERRY-PICK CONFLICT $c"; git -C /repo cherry-pick --abort; }
 done
-git merge -q --no-edit ag-$WS 2>&1 | tail -5
-git status --short | grep '^U' && echo "MERGE CONFLICTS"
+git merge -q --no-edit ag-$WS >/dev/null 2>&1
+# generated / integrator-owned files: keep ours, regenerate below
+for f in known_findings.txt MANIFEST.json check setup.sh; do
+  if git status --short | grep -q "^UU $f\|^AA $f"; then git checkout --ours $f 2>/dev/null; git add $f; fi
+done
+for f in $(git status --short | grep '^UU evidence/\|^AA evidence/' | awk '{print $2}'); do git checkout --theirs $f; git add $f; done
+git status --short | grep '^U\|^AA' && echo "MERGE CONFLICTS REMAIN"
 python3 tools/mkfindings.py >/dev/null; python3 tools/mkmanifest.py
+git add -A
+git -c core.editor=true commit -qm "Merge ag-$WS" 2>&1 | tail -2
+# rewrite fix-commit hashes of the builder's branch to the cherry-picked ones on /repo main
+for c in $(git -C /repo log --format=%H main -30); do
+  orig=$(git -C /repo show -s --format=%B $c | sed -n 's/.*cherry picked from commit \([0-9a-f]*\)).*/\1/p')
+  [ -n "$orig" ] && sed -i "s/${orig:0:7}/${c:0:7}/g" findings/*.txt design/*.md 2>/dev/null
+done
+python3 tools/mkfindings.py >/dev/null
+git add -A; git commit -qm "findings: main-branch fix commit hashes ($WS)" 2>/dev/null
+git log --oneline | head -2
